@@ -77,10 +77,13 @@ Record state := mkState {
   ijob : option import_job;
   mjob : option merge_job;        (* mergeJobRunning *)
   tjob : option tag_job;          (* taggingJobRunning *)
-  views : list (N * list file) }. (* open, fetched views with their index snapshot *)
+  views : list (N * list file);   (* open, fetched views with their index snapshot *)
+  tagver : N;                     (* ghost: version stamp of the manager's tag table (bumped whenever it may be rewritten) *)
+  vtags : list (N * (N * bool)) }. (* ghost: per open view its own copy of the tag details = (stamp of the table it copied at fetch,
+                                      lazily evaluated by the view itself with PrefetchTags) *)
 
 Definition init : state :=
-  mkState [] [] [] [] [] [] 0 0 0 0%nat false 0 None None None None [].
+  mkState [] [] [] [] [] [] 0 0 0 0%nat false 0 None None None None [] 0 [].
 
 (* ---------------------------------------------------------------- use counts: lock / release *)
 Fixpoint cnt (m : list (N * N)) (u : N) : N :=
@@ -265,6 +268,7 @@ Inductive action :=
 | AView (v : N)
 | ARead (v : N)
 | ARelease (v : N)
+| APrefetch (v : N)               (* a read through view v with PrefetchTags: lazy evaluation into the view's OWN copy of the tag details *)
 | ATagAdd
 | ATagDel (hit : bool)            (* DelTag; hit: it is the tag of the tagging job in flight *)
 | ATagUpd (hit : bool)            (* UpdateTag(query) with a new definition *)
@@ -280,7 +284,7 @@ Inductive action :=
 
 Definition set_used_disk (st : state) (md : list (N * N) * list N) : state :=
   mkState (indexes st) (fst md) (snd md) (queue st) (known st) (processed st) (next_cap st) (next_id st)
-          (next_uid st) (nunm st) (cwork st) (unc st) (cjob st) (ijob st) (mjob st) (tjob st) (views st).
+          (next_uid st) (nunm st) (cwork st) (unc st) (cjob st) (ijob st) (mjob st) (tjob st) (views st) (tagver st) (vtags st).
 
 (* getIndexesCopy(start): copy of the list from start, locked *)
 Definition copy_from (start : nat) (st : state) : list file := skipn start (indexes st).
@@ -290,7 +294,7 @@ Definition launch_import (files : list N) (st : state) : state :=
   let snap := copy_from 0 st in
   mkState (indexes st) (lock snap (used st)) (disk st) (queue st) (known st) (processed st) (next_cap st)
           (next_id st) (next_uid st) (nunm st) (cwork st) (unc st) (cjob st)
-          (Some (mkIJ files (next_id st) snap AtStart [] 0 0)) (mjob st) (tjob st) (views st).
+          (Some (mkIJ files (next_id st) snap AtStart [] 0 0)) (mjob st) (tjob st) (views st) (tagver st) (vtags st).
 
 (* startTaggingJobIfNeeded *)
 Definition start_tagging (st : state) : state :=
@@ -302,7 +306,7 @@ Definition start_tagging (st : state) : state :=
         let snap := copy_from 0 st in
         mkState (indexes st) (lock snap (used st)) (disk st) (queue st) (known st) (processed st) (next_cap st)
                 (next_id st) (next_uid st) (nunm st) (cwork st) (unc st) (cjob st)
-                (ijob st) (mjob st) (Some (mkTJ snap AtStart true)) (views st)
+                (ijob st) (mjob st) (Some (mkTJ snap AtStart true)) (views st) (tagver st) (vtags st)
   end.
 
 (* startConverterJobIfNeeded: whether some converter has streams to convert is an environment input (cwork) *)
@@ -314,7 +318,7 @@ Definition start_converter (st : state) : state :=
         let snap := copy_from 0 st in
         mkState (indexes st) (lock snap (used st)) (disk st) (queue st) (known st) (processed st) (next_cap st)
                 (next_id st) (next_uid st) (nunm st) false (unc st) (Some (mkCJ snap AtStart))
-                (ijob st) (mjob st) (tjob st) (views st)
+                (ijob st) (mjob st) (tjob st) (views st) (tagver st) (vtags st)
       else st
   end.
 
@@ -328,7 +332,7 @@ Definition start_merge (st : state) : state :=
             let snap := copy_from i st in
             mkState (indexes st) (lock snap (used st)) (disk st) (queue st) (known st) (processed st) (next_cap st)
                     (next_id st) (next_uid st) (nunm st) (cwork st) (unc st) (cjob st)
-                    (ijob st) (Some (mkMJ i snap AtStart [])) (tjob st) (views st)
+                    (ijob st) (Some (mkMJ i snap AtStart [])) (tjob st) (views st) (tagver st) (vtags st)
         | None => st
         end
       else st
@@ -361,6 +365,24 @@ Fixpoint set_view (v : N) (s : list file) (vs : list (N * list file)) : list (N 
   | (w, s0) :: r => if w =? v then (w, s) :: r else (w, s0) :: set_view v s r
   end.
 
+Fixpoint vtag_of (v : N) (vs : list (N * (N * bool))) : option (N * bool) :=
+  match vs with
+  | [] => None
+  | (w, t) :: r => if w =? v then Some t else vtag_of v r
+  end.
+
+Fixpoint del_vtag (v : N) (vs : list (N * (N * bool))) : list (N * (N * bool)) :=
+  match vs with
+  | [] => []
+  | (w, t) :: r => if w =? v then r else (w, t) :: del_vtag v r
+  end.
+
+Fixpoint set_vtag (v : N) (t : N * bool) (vs : list (N * (N * bool))) : list (N * (N * bool)) :=
+  match vs with
+  | [] => []
+  | (w, t0) :: r => if w =? v then (w, t) :: r else (w, t0) :: set_vtag v t r
+  end.
+
 Definition invalidate_tj (hit : bool) (o : option tag_job) : option tag_job :=
   match o with
   | Some (mkTJ snap ph v) => Some (mkTJ snap ph (if hit then false else v))
@@ -380,7 +402,7 @@ Definition step (st : state) (a : action) : state :=
           let q := queue st ++ ks in
           let st1 := mkState (indexes st) (used st) (disk st) q (known st) (processed st)
                              (last_plus1 (next_cap st) ks) (next_id st) (next_uid st) (nunm st) (cwork st)
-                             (unc st) (cjob st) (ijob st) (mjob st) (tjob st) (views st) in
+                             (unc st) (cjob st) (ijob st) (mjob st) (tjob st) (views st) (tagver st) (vtags st) in
           if (length q =? length ks)%nat then launch_import (firstn (length ks) q) st1 else st1
         else st
       end
@@ -391,7 +413,7 @@ Definition step (st : state) (a : action) : state :=
           let snap := copy_from 0 st in
           mkState (indexes st) (lock snap (used st)) (disk st) (queue st) (known st) (processed st) (next_cap st)
                   (next_id st) (next_uid st) (nunm st) (cwork st) (unc st) (cjob st)
-                  (ijob st) (mjob st) (tjob st) (views st ++ [(v, snap)])
+                  (ijob st) (mjob st) (tjob st) (views st ++ [(v, snap)]) (tagver st) (vtags st ++ [(v, (tagver st, false))])
       end
   | ARead v =>
       match view_of v (views st) with
@@ -400,7 +422,7 @@ Definition step (st : state) (a : action) : state :=
             let snap := copy_from 0 st in
             mkState (indexes st) (lock snap (used st)) (disk st) (queue st) (known st) (processed st) (next_cap st)
                     (next_id st) (next_uid st) (nunm st) (cwork st) (unc st) (cjob st)
-                    (ijob st) (mjob st) (tjob st) (set_view v snap (views st))
+                    (ijob st) (mjob st) (tjob st) (set_view v snap (views st)) (tagver st) (set_vtag v (tagver st, false) (vtags st))
           else st
       | _ => st
       end
@@ -411,7 +433,15 @@ Definition step (st : state) (a : action) : state :=
           let md := release s (used st, disk st) in
           mkState (indexes st) (fst md) (snd md) (queue st) (known st) (processed st) (next_cap st)
                   (next_id st) (next_uid st) (nunm st) (cwork st) (unc st) (cjob st)
-                  (ijob st) (mjob st) (tjob st) (del_view v (views st))
+                  (ijob st) (mjob st) (tjob st) (del_view v (views st)) (tagver st) (del_vtag v (vtags st))
+      end
+  | APrefetch v =>
+      match vtag_of v (vtags st) with
+      | Some (stamp, _) =>
+          mkState (indexes st) (used st) (disk st) (queue st) (known st) (processed st) (next_cap st)
+                  (next_id st) (next_uid st) (nunm st) (cwork st) (unc st) (cjob st)
+                  (ijob st) (mjob st) (tjob st) (views st) (tagver st) (set_vtag v (stamp, true) (vtags st))
+      | None => st
       end
   | ATagAdd => start_tagging st
   | ATagDel hit =>
@@ -419,12 +449,12 @@ Definition step (st : state) (a : action) : state :=
       start_tagging
         (mkState (indexes st) (used st) (disk st) (queue st) (known st) (processed st) (next_cap st)
                  (next_id st) (next_uid st) (nunm st) (cwork st) (unc st) (cjob st)
-                 (ijob st) (mjob st) (invalidate_tj hit (tjob st)) (views st))
+                 (ijob st) (mjob st) (invalidate_tj hit (tjob st)) (views st) (tagver st + 1) (vtags st))
   | ATagUpd hit =>
       start_converter (start_tagging
         (mkState (indexes st) (used st) (disk st) (queue st) (known st) (processed st) (next_cap st)
                  (next_id st) (next_uid st) (nunm st) (cwork st) (unc st) (cjob st)
-                 (ijob st) (mjob st) (invalidate_tj hit (tjob st)) (views st)))
+                 (ijob st) (mjob st) (invalidate_tj hit (tjob st)) (views st) (tagver st + 1) (vtags st)))
   | AConvSet => start_converter (start_tagging st)
   | AMergeFail =>
       match mjob st with
@@ -432,7 +462,7 @@ Definition step (st : state) (a : action) : state :=
           (* the partial output is closed and removed by Merge itself; the completion will count the run as unmergeable *)
           mkState (indexes st) (used st) (disk st) (queue st) (known st) (processed st) (next_cap st)
                   (next_id st) (next_uid st) (nunm st) (cwork st) (unc st) (cjob st)
-                  (ijob st) (Some (mkMJ off snap AtDone [])) (tjob st) (views st)
+                  (ijob st) (Some (mkMJ off snap AtDone [])) (tjob st) (views st) (tagver st) (vtags st)
       | _ => st
       end
   | ABoot => start_merge (start_converter (start_tagging st))
@@ -441,11 +471,11 @@ Definition step (st : state) (a : action) : state :=
   | AEnvUnc n =>
       mkState (indexes st) (used st) (disk st) (queue st) (known st) (processed st) (next_cap st)
               (next_id st) (next_uid st) (nunm st) (cwork st) n (cjob st)
-              (ijob st) (mjob st) (tjob st) (views st)
+              (ijob st) (mjob st) (tjob st) (views st) (tagver st + 1) (vtags st)
   | AEnvConvWork b =>
       mkState (indexes st) (used st) (disk st) (queue st) (known st) (processed st) (next_cap st)
               (next_id st) (next_uid st) (nunm st) b (unc st) (cjob st)
-              (ijob st) (mjob st) (tjob st) (views st)
+              (ijob st) (mjob st) (tjob st) (views st) (tagver st) (vtags st)
   | AStart KImport =>
       match ijob st with
       | Some (mkIJ caps nx snap AtStart _ _ _) =>
@@ -455,7 +485,7 @@ Definition step (st : state) (a : action) : state :=
                   (match es with [] => known st | _ => allk end) (processed st) (next_cap st)
                   (next_id st) (match es with [] => next_uid st | _ => next_uid st + 1 end) (nunm st) (cwork st)
                   (unc st) (cjob st)
-                  (Some (mkIJ caps nx snap AtDone created usednew (length (proc_caps caps)))) (mjob st) (tjob st) (views st)
+                  (Some (mkIJ caps nx snap AtDone created usednew (length (proc_caps caps)))) (mjob st) (tjob st) (views st) (tagver st) (vtags st)
       | _ => st
       end
   | AStart KMerge =>
@@ -465,7 +495,7 @@ Definition step (st : state) (a : action) : state :=
           mkState (indexes st) (used st) (map f_uid merged ++ disk st) (queue st) (known st) (processed st)
                   (next_cap st) (next_id st)
                   (match snap with [] => next_uid st | _ => next_uid st + 1 end) (nunm st) (cwork st)
-                  (unc st) (cjob st) (ijob st) (Some (mkMJ off snap AtDone merged)) (tjob st) (views st)
+                  (unc st) (cjob st) (ijob st) (Some (mkMJ off snap AtDone merged)) (tjob st) (views st) (tagver st) (vtags st)
       | _ => st
       end
   | AStart KTag =>
@@ -473,7 +503,7 @@ Definition step (st : state) (a : action) : state :=
       | Some (mkTJ snap AtStart v) =>
           mkState (indexes st) (used st) (disk st) (queue st) (known st) (processed st) (next_cap st)
                   (next_id st) (next_uid st) (nunm st) (cwork st) (unc st) (cjob st)
-                  (ijob st) (mjob st) (Some (mkTJ snap AtDone v)) (views st)
+                  (ijob st) (mjob st) (Some (mkTJ snap AtDone v)) (views st) (tagver st) (vtags st)
       | _ => st
       end
   | AComplete KImport =>
@@ -488,7 +518,7 @@ Definition step (st : state) (a : action) : state :=
           let st1 := mkState idx u2 (snd md) q (known st) (processed st ++ firstn nproc caps) (next_cap st)
                              (if has then nx + usednew else next_id st) (next_uid st) (nunm st) (cwork st)
                              (unc st) (cjob st)
-                             None (mjob st) (tjob st) (views st) in
+                             None (mjob st) (tjob st) (views st) (tagver st) (vtags st) in
           let st2 := match q with [] => st1 | _ => launch_import q st1 end in
           start_merge (start_converter (start_tagging st2))
       | _ => st
@@ -500,7 +530,7 @@ Definition step (st : state) (a : action) : state :=
             match merged with
             | [] => mkState (indexes st) (used st) (disk st) (queue st) (known st) (processed st) (next_cap st)
                             (next_id st) (next_uid st) (S (nunm st)) (cwork st) (unc st) (cjob st)
-                            (ijob st) None (tjob st) (views st)
+                            (ijob st) None (tjob st) (views st) (tagver st) (vtags st)
             | _ =>
                 let old := firstn (length snap) (skipn off (indexes st)) in
                 let md := release old (used st, disk st) in
@@ -508,7 +538,7 @@ Definition step (st : state) (a : action) : state :=
                 let idx := firstn off (indexes st) ++ merged ++ skipn (off + length snap) (indexes st) in
                 mkState idx u2 (snd md) (queue st) (known st) (processed st) (next_cap st)
                         (next_id st) (next_uid st) (nunm st + (length merged - 1))%nat (cwork st) (unc st) (cjob st)
-                        (ijob st) None (tjob st) (views st)
+                        (ijob st) None (tjob st) (views st) (tagver st) (vtags st)
             end in
           let st2 := start_merge st1 in
           set_used_disk st2 (release snap (used st2, disk st2))
@@ -520,7 +550,7 @@ Definition step (st : state) (a : action) : state :=
           (* whether the result is published ("don't touch the tag if it was modified") only changes tag state = environment *)
           let st1 := mkState (indexes st) (used st) (disk st) (queue st) (known st) (processed st) (next_cap st)
                              (next_id st) (next_uid st) (nunm st) (cwork st) (unc st) (cjob st)
-                             (ijob st) (mjob st) None (views st) in
+                             (ijob st) (mjob st) None (views st) (tagver st) (vtags st) in
           let st2 := start_merge (start_converter (start_tagging st1)) in
           set_used_disk st2 (release snap (used st2, disk st2))
       | _ => st
@@ -530,7 +560,7 @@ Definition step (st : state) (a : action) : state :=
       | Some (mkCJ snap AtStart) =>
           mkState (indexes st) (used st) (disk st) (queue st) (known st) (processed st) (next_cap st)
                   (next_id st) (next_uid st) (nunm st) (cwork st) (unc st) (Some (mkCJ snap AtDone))
-                  (ijob st) (mjob st) (tjob st) (views st)
+                  (ijob st) (mjob st) (tjob st) (views st) (tagver st) (vtags st)
       | _ => st
       end
   | AComplete KConvert =>
@@ -538,7 +568,7 @@ Definition step (st : state) (a : action) : state :=
       | Some (mkCJ snap AtDone) =>
           let st1 := mkState (indexes st) (used st) (disk st) (queue st) (known st) (processed st) (next_cap st)
                              (next_id st) (next_uid st) (nunm st) (cwork st) (unc st) None
-                             (ijob st) (mjob st) (tjob st) (views st) in
+                             (ijob st) (mjob st) (tjob st) (views st) (tagver st) (vtags st) in
           let st2 := start_merge (start_converter (start_tagging st1)) in
           set_used_disk st2 (release snap (used st2, disk st2))
       | _ => st
@@ -556,14 +586,14 @@ Definition init_from (fs : list file) (junk : list N) (P : list N) : state :=
           (fold_left (fun a k => N.max a (k + 1)) P 0)
           (snap_next fs)
           (fold_left (fun a u => N.max a (u + 1)) (map f_uid fs ++ junk) 0)
-          0%nat false 0 None None None None [].
+          0%nat false 0 None None None None [] 0 [].
 
 (* is the action one the harness can perform in this state? (used by the replay driver only) *)
 Definition enabled (st : state) (a : action) : bool :=
   match a with
   | AImport ks => match ks with [] => false | _ => ascending (next_cap st) ks end
   | AView v => match view_of v (views st) with None => true | Some _ => false end
-  | ARead v | ARelease v => match view_of v (views st) with None => false | Some _ => true end
+  | ARead v | ARelease v | APrefetch v => match view_of v (views st) with None => false | Some _ => true end
   | ATagAdd => true
   | ATagDel hit | ATagUpd hit => if hit then match tjob st with Some _ => true | None => false end else true
   | AConvSet | AConvRemove | AConvAdd | AEnvUnc _ | AEnvConvWork _ | ABoot => true
